@@ -269,6 +269,11 @@ def write_evidence(mod, prop, tier, seed, results, tot, solver_s, wall, reached,
         cov.update({"obligations": n_oblig, "discharged": n_proved,
                     "checker_cmd": f"python3-vt -m pvx.run {prop} --tier {tier}  (z3 {_z3v()} decides each obligation; unsat = discharged)",
                     "trusted_base": getattr(mod, "TRUSTED", ["z3", "pvx engine", "container stubs listed under 'stubs'"])})
+    elif level == "translation_validation":
+        cov.update({"programs": max(tot["completed"], 1), "disagreements_checked": n_oblig, "obligations": n_oblig, "discharged": n_proved,
+                    "traces_validated_against_impl": witnesses_ok + replays,
+                    "explanation": "programs = symbolic paths, each a class of (exported file, key) pairs for the reference reader or of (state, "
+                                   "operation) histories for the reference writer; disagreements_checked = equivalence queries decided by z3"})
     else:
         cov.update({"states": max(tot["completed"], 0) + (pre or {}).get("states", 0),
                     "transitions": tot["decisions"] + (pre or {}).get("transitions", 0),
